@@ -65,8 +65,8 @@ import (
 // X by now), so the cached object keeps label X and the call files the pod under X although its last object names another
 // quota / none (and, if the new label names an existing quota Y, Y holds it too).  The harness marks the case when it issues
 // such an update; from then on every membership / figure / fresh-manager / default-group clause that fails in that case
-// reports that fingerprint (the op lines keep following the code, the model state keeps satisfying the local equations, so
-// `inv 1` and the correspondence are unaffected).  Level 1 generates everything but D6; level 0 is the generator from before
+// reports that fingerprint; the op lines keep following the code, so the correspondence is unaffected, but the case switches
+// to `mode 0` (no `inv` line): a pod held by two quotas can end up with a cache entry whose amounts nobody accounted.  Level 1 generates everything but D6; level 0 is the generator from before
 // the repairs (nothing happens to a pod in the window, nothing changes while the default group holds it under an awaited label).
 // Silent by construction: a pod reserved while the default group holds it and then migrated across managers is filed
 // unassigned in its quota (OnPodAdd of an object without NodeName) until its next event; the oracles take the assigned flags
@@ -408,7 +408,9 @@ func (w *c01pWorld) emit(root [2][4]int64, qs map[int]*c01pObsQ) {
 			h.Obs("d %d %d %s", k, n, vInts(q.d[k][:]))
 		}
 	}
-	h.Obs("inv 1")
+	if !w.d6 {
+		h.Obs("inv 1") // after D6 the case runs in `mode 0`: a pod held by two quotas ends up with an entry nobody accounts
+	}
 	h.Obs("end")
 }
 
@@ -966,7 +968,10 @@ func (w *c01pWorld) opPodUpdate(id int, force int) {
 			}
 			if nv.label != old.label {
 				h.Tag("pl:pod-relabelled-between-quota-add-and-migration")
-				w.d6 = true
+				if !w.d6 {
+					w.d6 = true
+					h.Op("mode 0") // registered finding D6: from here on correspondence only, no `inv` line
+				}
 			}
 		case w.def[id] != nil && c01pAmtDiff(&nv, old):
 			h.Tag("pl:pod-resized-while-default-group-holds-it")
